@@ -31,10 +31,10 @@ type exchange6 struct {
 	steps []xstep
 }
 
-const c06mid = 1
-
-func c06exchanges() (clientX, brokerX []exchange6) {
-	m := uint16(c06mid)
+// c06exchanges returns the exchanges for the shared message id m.  For m = 0xFFFF the broker-started
+// exchange is a QoS 0 PUBLISH on a new topic: its REGISTER carries a message id the gateway picks
+// itself (the highest free one), so the client-started exchanges use that id.
+func c06exchanges(m uint16) (clientX, brokerX []exchange6) {
 	clientX = []exchange6{
 		{"client PUBLISH q1", []xstep{
 			{gw.EvC("C:PUBLISH(q1,predef 1)", gw.Publish(1, 1, m, 1, false, false, "x")), "mq:PUBLISH"},
@@ -64,10 +64,18 @@ func c06exchanges() (clientX, brokerX []exchange6) {
 			{gw.EvC("C:REGACK", gw.Regack(2, m, 0)), "sn:PUBLISH"},
 			{gw.EvC("C:PUBACK", gw.Puback(2, m, 0)), "mq:PUBACK"}}},
 	}
+	if m == 0xFFFF {
+		brokerX = []exchange6{
+			{"broker PUBLISH q0 on a new topic", []xstep{
+				{gw.EvB("B:PUBLISH(w/n,q0)", refmqtt.EncPublish("w/n", 0, false, false, 0, []byte("b"))), "sn:REGISTER"},
+				{gw.EvC("C:REGACK", gw.Regack(2, m, 0)), "sn:PUBLISH"}}},
+		}
+	}
 	return
 }
 
 type c06mon struct {
+	mid      uint16
 	cx, bx   exchange6
 	ci, bi   int
 	timers   int
@@ -82,7 +90,7 @@ func (m *c06mon) After(g *gw.GW, ev string, sn []gw.SNOut, mq []gw.MQOut, setup 
 	}
 	clientPending := false
 	for _, tx := range g.H.VTransactions() {
-		if strings.HasPrefix(tx, fmt.Sprintf("id%d=", c06mid)) {
+		if strings.HasPrefix(tx, fmt.Sprintf("id%d=", m.mid)) {
 			clientPending = true
 		}
 	}
@@ -114,12 +122,12 @@ func (m *c06mon) After(g *gw.GW, ev string, sn []gw.SNOut, mq []gw.MQOut, setup 
 	}
 	got := false
 	for _, o := range sn {
-		if o.Err == nil && "sn:"+o.P.Name() == want && (o.P.MsgID == c06mid || o.P.Type == refsn.PUBLISH) {
+		if o.Err == nil && "sn:"+o.P.Name() == want && (o.P.MsgID == m.mid || o.P.Type == refsn.PUBLISH) {
 			got = true
 		}
 	}
 	for _, o := range mq {
-		if "mq:"+o.P.Name() == want && o.P.ID == c06mid {
+		if "mq:"+o.P.Name() == want && o.P.ID == m.mid {
 			got = true
 		}
 	}
@@ -137,7 +145,7 @@ func (m *c06mon) After(g *gw.GW, ev string, sn []gw.SNOut, mq []gw.MQOut, setup 
 			outs = append(outs, "mq:"+o.P.String())
 		}
 		return []explore.Violation{{Sig: fmt.Sprintf("%s exchange disturbed:%s:by=%s:at=%s:timers=%t", who, x.name, other, gw.Label(ev), m.timers > 0),
-			Detail: fmt.Sprintf("%s step %s of the %s exchange (msg id %d) produced %v instead of %s while an exchange %q with the same msg id is in the history", gw.Label(ev), gw.Label(ev), who, c06mid, outs, want, other)}}
+			Detail: fmt.Sprintf("%s step %s of the %s exchange (msg id %d) produced %v instead of %s while an exchange %q with the same msg id is in the history", gw.Label(ev), gw.Label(ev), who, m.mid, outs, want, other)}}
 	}
 	return nil
 }
@@ -170,18 +178,20 @@ func c06specs() []gw.Spec {
 	cfg.RetryDelay, cfg.RetryCount = 2*time.Second, 3
 	cfg.Predefined = topics.PredefinedTopics{"*": {1: "p/1"}}
 	setup := append(connectSetup("c1", 30), gw.Ev("SUBSCRIBE w/# + SUBACK", gw.EvC("", gw.SubscribeName(9, "w/#", 1, false)), gw.EvB("", refmqtt.EncSuback(9, 1))))
-	cxs, bxs := c06exchanges()
 	maxT := 2
 	if explore.Tier() == "thorough" {
 		maxT = 3
 	}
 	var out []gw.Spec
-	for _, cx := range cxs {
-		for _, bx := range bxs {
-			cx, bx := cx, bx
-			out = append(out, gw.Spec{Name: cx.name + " || " + bx.name, Cfg: cfg, Setup: setup, NewMonitor: func() gw.Monitor {
-				return &c06mon{cx: cx, bx: bx, maxTimer: maxT, broken: map[string]bool{}}
-			}})
+	for _, mid := range []uint16{1, 0xFFFF} {
+		cxs, bxs := c06exchanges(mid)
+		for _, cx := range cxs {
+			for _, bx := range bxs {
+				cx, bx, mid := cx, bx, mid
+				out = append(out, gw.Spec{Name: fmt.Sprintf("%s || %s (msg id %d)", cx.name, bx.name, mid), Cfg: cfg, Setup: setup, NewMonitor: func() gw.Monitor {
+					return &c06mon{mid: mid, cx: cx, bx: bx, maxTimer: maxT, broken: map[string]bool{}}
+				}})
+			}
 		}
 	}
 	return out
@@ -195,7 +205,7 @@ func TestC06(t *testing.T) {
 	}
 	rep := explore.NewReport("C06", "model_checking")
 	gw.BFSCheck(rep, specs, gw.BFSOpts{Test: "TestC06"}, 240, 1500)
-	rep.Coverage["rule"] = "gateway side: for each pair (client-started exchange in {PUBLISH q1, SUBSCRIBE, PUBLISH q2, REGISTER}) x (broker-started exchange in {PUBLISH q1, PUBLISH q2, PUBLISH q1 on a new topic}) with the same message id: BFS over every shuffle of their steps with up to 2 (thorough 3) timer expiries at any position; each step must produce the output it produces when its exchange runs alone (differential expectation: the scripts' own step/response pairs)"
+	rep.Coverage["rule"] = "gateway side: for each pair (client-started exchange in {PUBLISH q1, SUBSCRIBE, PUBLISH q2, REGISTER}) x (broker-started exchange in {PUBLISH q1, PUBLISH q2, PUBLISH q1 on a new topic} with message id 1, and PUBLISH q0 on a new topic whose REGISTER uses the gateway-chosen id 0xFFFF) with the same message id: BFS over every shuffle of their steps with up to 2 (thorough 3) timer expiries at any position; each step must produce the output it produces when its exchange runs alone (differential expectation: the scripts' own step/response pairs)"
 	rep.Assumptions = []string{"default schedule within a step"}
 	rep.Finish()
 }
